@@ -310,10 +310,24 @@ class History:
             def execute_result_async(self, a, title=None):
                 return _Awaitable(HDS.execute_result_async(self, a, title))
 
+        class VarHDS(HDS):
+            "a dataset whose executor is declared with catch-all parameters (a forwarding wrapper, a decorator without functools.wraps)"
+
+            async def execute_result_async(self, *args, **kwargs):
+                return await HDS.execute_result_async(self, *args, **kwargs)
+
+        class RestHDS(HDS):
+            "... or takes everything after the query as *rest"
+
+            async def execute_result_async(self, a, *rest, **kw):
+                return await HDS.execute_result_async(self, a, *rest, **kw)
+
         self.HDS = HDS
         for i in range(n_datasets):
             k = rnd.random()
-            cls = EmptyHDS if rnd.random() < 0.3 else (SyncHDS if rnd.random() < 0.3 else HDS)
+            cls = EmptyHDS if rnd.random() < 0.3 else (SyncHDS if rnd.random() < 0.3 else (VarHDS if rnd.random() < 0.25 else (RestHDS if rnd.random() < 0.2 else HDS)))
+            if cls in (VarHDS, RestHDS):
+                self.mode_counts["executors-declared-with-catch-all-parameters"] = self.mode_counts.get("executors-declared-with-catch-all-parameters", 0) + 1
             if cls is SyncHDS:
                 self.mode_counts["plain-function-executors-returning-awaitables"] = self.mode_counts.get("plain-function-executors-returning-awaitables", 0) + 1
             if cls is EmptyHDS:
